@@ -45,9 +45,9 @@ ASSUMPTIONS = ['expected values come from the reader\'s own tables while steppin
                'than 4 x lines + 1000 consecutive reads at end of file',
                'every call is made on an independent deep copy of a pristine freshly opened listing (compared field by '
                'field with a second genuine open once per file); replays use a genuine fresh open']
-BOUNDS = {'quick': {'files': 'the 25 shipped listings smaller than 300 kB', 'ordered_subsets': 'all',
+BOUNDS = {'quick': {'files': 'shipped listings smaller than 300 kB (counted in counters.files)', 'ordered_subsets': 'all',
                     'items': 'all columns x 3 rows x key forms x 2 call forms', 'start_indices': 'all'},
-          'thorough': {'files': 'all 37 shipped listings', 'ordered_subsets': 'all',
+          'thorough': {'files': 'all shipped listings (counted in counters.files)', 'ordered_subsets': 'all',
                        'items': 'all columns x 3 rows x key forms x 2 call forms', 'start_indices': 'all'}}
 TECHNIQUE = ('bounded exhaustive enumeration of history() selections (all ordered table subsets, all cells of the '
              'row/column/key-form lattice, all starting indices) on the real reader against a stepping pass')
@@ -484,6 +484,18 @@ def _shape(res):
 
 def run_unit(unit, tier, rec):
     key, part = unit
+    try:
+        _run_unit(unit, tier, rec)
+    except listkit.OpenFailed as e:
+        fam = listkit.scan_of(listkit.path_of(key)).family
+        rec.violation('C06|open|%s|%s' % (e.kind, fam), str(e), {'file': key, 'stepping': True})
+        rec.case((key, part, 'open'), nontrivial=False, outcome='no-reader')
+    finally:
+        _pristine.drop(listkit.path_of(key))
+
+
+def _run_unit(unit, tier, rec):
+    key, part = unit
     ctx = FileCtx(key)
     if ctx.problems:
         if part == PARTS[0]:
@@ -512,6 +524,10 @@ def run_unit(unit, tier, rec):
                     sig += '|not-reproduced-on-a-genuine-fresh-open'
                 rec.violation(sig, what, js)
         ncalls += 1
+        if part == 'subsets':
+            rec.count('ordered_subset_calls_%s' % ctx.sim)
+            if outcome == 'agrees':
+                rec.count('ordered_subset_calls_agreeing_with_stepping_%s' % ctx.sim)
         if outcome == 'agrees' and len(case['selection']) > 1:
             rec.sample({'file': key, 'call': js, 'outcome': outcome})
     rec.count('calls_%s' % part, ncalls)
@@ -519,14 +535,17 @@ def run_unit(unit, tier, rec):
         rec.count('files', 1)
         rec.count('result_sets_stepped', ctx.n)
         rec.count('files_with_short_output', 1 if ctx.has_short else 0)
-    _pristine.drop(ctx.path)
 
 
 def replay(case):
-    ctx = FileCtx(case['file'])
-    if case.get('stepping'):
-        return ctx.problems
-    return _replay_with(ctx, case)
+    try:
+        ctx = FileCtx(case['file'])
+        if case.get('stepping'):
+            return ctx.problems
+        return _replay_with(ctx, case)
+    except listkit.OpenFailed as e:
+        fam = listkit.scan_of(listkit.path_of(case['file'])).family
+        return [('C06|open|%s|%s' % (e.kind, fam), str(e))]
 
 
 def _replay_with(ctx, case):
